@@ -15,6 +15,7 @@ WORKERS = int(os.environ.get("VERIF_WORKERS", "0")) or min(vlib.NCPU, 8)
 SKIP_DESIGN = os.environ.get("VERIF_SKIP_DESIGN") == "1"   # development / mutation testing only
 # a scratch worktree (VERIF_REPO) gets its own driver binaries
 DRVSUFFIX = "" if vlib.REPO == "/repo" else "_" + vlib.sha(vlib.REPO)
+_LOCK = threading.Lock()
 ALLKINDS = ["set", "del", "sdel", "delsized", "merge", "delr", "rkset", "rkunset", "rkdel", "logdata"]
 
 
@@ -73,6 +74,25 @@ def run_bug_cfgs(run, specdir, module, expect, workers=2):
     if errs:
         raise vlib.Inconclusive(errs[0])
     run.cov.setdefault("seeded_bugs_caught", {}).update({"%s/%s" % (module, k): v for k, v in res.items()})
+
+
+def parallel(*fns):
+    """run callables in threads (each mostly waits for a TLC / go subprocess); returns their results, re-raises the first failure"""
+    res, errs = [None] * len(fns), []
+
+    def one(i):
+        try:
+            res[i] = fns[i]()
+        except BaseException as e:       # noqa
+            errs.append(e)
+    ths = [threading.Thread(target=one, args=(i,)) for i in range(len(fns))]
+    for t in ths:
+        t.start()
+    for t in ths:
+        t.join()
+    if errs:
+        raise errs[0]
+    return res
 
 
 def printed_json(out, first='"{'):
@@ -235,8 +255,9 @@ def c31_design(run):
     with Phase(run, "design"):
         r = vlib.tlc_must_pass(BE, "BatchEncGen", "run.cfg", workers=WORKERS, timeout=2400, heap="8g",
                                extra_files={"run.cfg": cfg_text(consts, invariants=C31_INVS + ["EmitInv"])})
-    run.add_design("BatchEncGen exhaustive (P=%d,S=%d: %d user keys; batches of <= %d records of kinds %s; pre-states empty/full; "
-                   "every transport, every split into Apply parts)" % (P, S, P * (S + 1), consts["MaxOps"], consts["Kinds"]), r)
+    with _LOCK:
+        run.add_design("BatchEncGen exhaustive (P=%d,S=%d: %d user keys; batches of <= %d records of kinds %s; pre-states empty/full; "
+                       "every transport, every split into Apply parts)" % (P, S, P * (S + 1), consts["MaxOps"], consts["Kinds"]), r)
     cases = printed_json(r.out)
     if not quick and not SKIP_DESIGN:
         # batches of 3 records over the point/range kinds that interact (thorough only)
@@ -244,13 +265,14 @@ def c31_design(run):
         with Phase(run, "design3"):
             r3 = vlib.tlc_must_pass(BE, "BatchEncGen", "run.cfg", workers=WORKERS, timeout=3000, heap="12g",
                                     extra_files={"run.cfg": cfg_text(c3, invariants=C31_INVS + ["EmitInv"])})
-        run.add_design("BatchEncGen exhaustive (P=%d,S=%d; batches of <= 3 records of kinds %s; pre-state full)" % (P, S, c3["Kinds"]), r3)
+        with _LOCK:
+            run.add_design("BatchEncGen exhaustive (P=%d,S=%d; batches of <= 3 records of kinds %s; pre-state full)" % (P, S, c3["Kinds"]), r3)
         seen = set(json.dumps(c, sort_keys=True) for c in cases)
-        for c in printed_json(r3.out):
-            if json.dumps(c, sort_keys=True) not in seen:
-                cases.append(c)
-    with Phase(run, "seeded_bugs"):
-        run_bug_cfgs(run, BE, "BatchEncGen", C31_BUGS)
+        c3cases = [c for c in printed_json(r3.out) if json.dumps(c, sort_keys=True) not in seen]
+        run.cov["exhaustive_3_record_cases_generated"] = len(c3cases)
+        if len(c3cases) > 12000:
+            c3cases = random.Random(run.seed).sample(c3cases, 12000)   # all of them are model-checked; this many are replayed
+        cases += c3cases
     return cases
 
 
@@ -265,7 +287,8 @@ def c31_simulate(run, walks, maxops):
     cases = printed_json(r.out)
     run.design["BatchEncGen/simulate (P=%d,S=%d, <= %d records)" % (P, S, maxops)] = dict(
         walks=walks, behaviours=len(cases), generated=r.generated, wall_s=round(r.wall, 1))
-    run.transitions += r.generated
+    with _LOCK:
+        run.transitions += r.generated
     return cases
 
 
@@ -305,8 +328,19 @@ def run_c31(run):
     quick = run.tier == "quick"
     for m in ("BatchEncGen", "BatchEncTrace"):
         vlib.sany(BE, m)
-    small_cases = c31_design(run)
-    big_cases = c31_simulate(run, walks=(250 if quick else 4000), maxops=(8 if quick else 12))
+    def bugs():
+        with Phase(run, "seeded_bugs"):
+            run_bug_cfgs(run, BE, "BatchEncGen", C31_BUGS)
+
+    def build():
+        with Phase(run, "build"):
+            return (vlib.build_driver("internal/verif/encdrv", name="internal_verif_encdrv" + DRVSUFFIX),
+                    vlib.build_driver(".", name="root_enc" + DRVSUFFIX, timeout=2400))
+    # the design run, the seeded-bug runs, the simulation and the go builds are independent subprocesses
+    small_cases, big_cases, _, (binp, rootp) = parallel(
+        lambda: c31_design(run),
+        lambda: c31_simulate(run, walks=(250 if quick else 4000), maxops=(8 if quick else 12)),
+        bugs, build)
     rng = random.Random(run.seed)
     if not small_cases or not big_cases:
         raise vlib.Inconclusive("the generator produced no cases (small=%d, simulated=%d)" % (len(small_cases), len(big_cases)))
@@ -318,9 +352,6 @@ def run_c31(run):
     run.cov["exhaustive_cases_generated"] = len(small_cases)
     if quick and len(small_cases) > 1200:
         small_cases = rng.sample(small_cases, 1200)     # the thorough tier replays every one
-    with Phase(run, "build"):
-        binp = vlib.build_driver("internal/verif/encdrv", name="internal_verif_encdrv" + DRVSUFFIX)
-        rootp = vlib.build_driver(".", name="root_enc" + DRVSUFFIX, timeout=2400)
     tdir = vlib.scratch("verif.enc31.")
     sets, dead = [], []
     for name, (P, S), cases, rotate in (("small", SMALL, small_cases, quick), ("big", BIG, big_cases, False)):
@@ -410,36 +441,48 @@ def c35_generate(run):
         scopes.append(("pairs, longer prefixes |p|<=2 (bytes: <=3)", c35_consts(MaxPLen=2)))
         scopes.append(("pairs, more timestamps W=3 L=2, alphabet {0x00,0x01,'a',0xfe,0xff}",
                        c35_consts(W=3, L=2, Alphabet=[0, 1, 97, 254, 255], Fams=["testkeys", "crdb"])))
-    cases, seen = [], set()
-    for name, consts in scopes:
-        if SKIP_DESIGN and name != scopes[0][0]:
-            continue
-        with Phase(run, "design:" + name.split()[0] + str(len(run.design))):
+    def exh(name, consts):
+        with Phase(run, "design:" + name.split(",")[0]):
             r = vlib.tlc_must_pass(KO, "KeyOrderGen", "run.cfg", workers=WORKERS, timeout=3000, heap="10g",
                                    extra_files={"run.cfg": cfg_text(consts, invariants=([] if SKIP_DESIGN else C35_LAWS) + ["EmitInv"])})
-        run.add_design("KeyOrderGen exhaustive: " + name, r)
-        for c in printed_json(r.out):
-            k = json.dumps(c, sort_keys=True)
-            if k not in seen:
-                seen.add(k)
-                cases.append(c)
-    with Phase(run, "seeded_bugs"):
-        run_bug_cfgs(run, KO, "KeyOrderGen", C35_BUGS)
-    if quick:
+        with _LOCK:
+            run.add_design("KeyOrderGen exhaustive: " + name, r)
+        return printed_json(r.out)
+
+    def bugs():
+        with Phase(run, "seeded_bugs"):
+            run_bug_cfgs(run, KO, "KeyOrderGen", C35_BUGS)
+        return []
+
+    def sim():
+        if not quick:
+            return []
         consts = c35_consts(Fams=["crdb"], TripleFams=["crdb"])
         with Phase(run, "simulate"):
             r = vlib.tlc(KO, "KeyOrderGen", "sim.cfg", workers=1, timeout=1500, simulate="num=60", depth=3, seed=run.seed,
                          extra_files={"sim.cfg": cfg_text(consts, invariants=["EmitInv"])})
         if r.timed_out or r.violation or ("Error:" in r.out):
             raise vlib.Inconclusive("KeyOrderGen simulation failed (%s)\n%s" % (r.violation, r.out[-2500:]))
-        n0 = len(cases)
-        for c in printed_json(r.out):
+        tr = [c for c in printed_json(r.out) if c["c"]["v"]["t"] != "unset"]
+        with _LOCK:
+            run.design["KeyOrderGen/simulate (cockroach triples)"] = dict(walks=60, behaviours=len(tr), generated=r.generated, wall_s=round(r.wall, 1))
+            run.transitions += r.generated
+        return tr
+
+    def build():
+        with Phase(run, "build"):
+            return vlib.build_driver("internal/verif/encdrv", name="internal_verif_encdrv" + DRVSUFFIX)
+    if SKIP_DESIGN:
+        scopes = scopes[:1]
+    res = parallel(*([(lambda n=n, c=c: exh(n, c)) for n, c in scopes] + [sim, bugs, build]))
+    cases, seen = [], set()
+    for lst in res[:-2]:
+        for c in lst:
             k = json.dumps(c, sort_keys=True)
-            if k not in seen and c["c"]["v"]["t"] != "unset":
+            if k not in seen:
                 seen.add(k)
                 cases.append(c)
-        run.design["KeyOrderGen/simulate (cockroach triples)"] = dict(walks=60, behaviours=len(cases) - n0, generated=r.generated, wall_s=round(r.wall, 1))
-        run.transitions += r.generated
+    run.binp = res[-1]
     return cases
 
 
@@ -477,8 +520,7 @@ def run_c35(run):
     npairs = sum(1 for c in cases if c["c"]["v"]["t"] == "unset")
     if npairs == 0 or npairs == len(cases):
         raise vlib.Inconclusive("the generator produced %d pairs and %d triples" % (npairs, len(cases) - npairs))
-    with Phase(run, "build"):
-        binp = vlib.build_driver("internal/verif/encdrv", name="internal_verif_encdrv" + DRVSUFFIX)
+    binp = run.binp
     tdir = vlib.scratch("verif.enc35.")
     cf = os.path.join(tdir, "cases.jsonl")
     # pairs first (grouped by family), then triples
